@@ -292,6 +292,9 @@ pub fn run(opts: &Opts) -> i32 {
             rep.violation(v);
         }
         println!("[C08] Cloud, brand-new store, 2-3 handles connecting at once: {n} schedules ({:.1}s)", rep.elapsed());
+        // two whole replicas syncing at once, each through its own handle of the real backend:
+        // every interleaving of their Server calls (local, object store; thorough: git remote)
+        super::backend_race::run("C08", &rep, opts.tier);
     }
     for (kind, depth) in plan {
         if only.as_ref().is_some_and(|o| format!("{kind:?}") != *o) {
@@ -328,6 +331,10 @@ pub fn run(opts: &Opts) -> i32 {
                 vec![a0, GetChild { h: 1, of: 0 }, a0, GetChild { h: 1, of: 1 }, Add { h: 1, parent: First, payload: Payload::Small }],
                 vec![a0, GetChild { h: 1, of: 0 }, Add { h: 1, parent: Latest, payload: Payload::Small }, GetChild { h: 0, of: 1 }, GetChild { h: 0, of: 2 }],
                 vec![a0, Add { h: 1, parent: Latest, payload: Payload::Small }, a0, GetChild { h: 1, of: 2 }, GetChild { h: 1, of: 3 }],
+                // a snapshot for the version this clone added, stored after another clone has
+                // already pushed the next version (the two requests of one sync, overtaken)
+                vec![a0, Add { h: 1, parent: Latest, payload: Payload::Small }, AddSnapshot { h: 0, at_latest: false }, GetSnapshot { h: 1 }, GetChild { h: 0, of: 1 }],
+                vec![a0, a0, Add { h: 1, parent: Latest, payload: Payload::Small }, AddSnapshot { h: 0, at_latest: false }, AddSnapshot { h: 0, at_latest: true }, GetSnapshot { h: 1 }],
             ]);
         }
         let skipped = std::sync::atomic::AtomicU64::new(0);
